@@ -76,12 +76,17 @@ def assemble(dt, t0, tz, rain, z_units, z_first, lead_rain, trail_rain,
         # the logger samples twice per rain step; a missing mid-step reading
         # is a gap that swallows no grid instant: the two sides are
         # different data intervals although adjacent on the grid
+        # (fine_keep_mids: the logger is twice as dense as the rain grid
+        # and skipped exactly the on-grid readings in `removed`; the
+        # readings half a step either side are there, so the hole is no
+        # longer than one rain step)
+        keep = bool((extra or {}).get('fine_keep_mids'))
         mids = [[(z_first + k) * dt + dt // 2,
                  (z_units[k] + z_units[k + 1]) / 16.0]
                 for k in range(len(z_units) - 1)
                 if (z_first + k) not in fine_removed
-                and (z_first + k) not in removed
-                and (z_first + k + 1) not in removed]
+                and (keep or ((z_first + k) not in removed
+                              and (z_first + k + 1) not in removed))]
         wl = sorted(wl + mids)
     lo = min(rain_rows[0][0], z_first) - 1
     hi = max(rain_rows[-1][0], z_first + len(z_units)) + 2
